@@ -29,7 +29,7 @@ RULE = ('PEL = PH UH <section> MT; section kinds UD, ED, 9 hexdump-only types, 4
 ASSUMPTIONS = ['a parser returning JSON null or an empty string "returns nothing"']
 
 BEHS = ['obj', 'list', 'str', 'none', 'null', 'empty', 'raise', 'importerror', 'keyerror', 'import-raises',
-        'import-importerror', 'import-missing-dependency', 'absent', 'badjson', 'num']
+        'import-importerror', 'import-missing-dependency', 'absent', 'badjson', 'num', 'nan', 'overflow', 'deep', 'hugeint']
 BEH_CREATORS = ['O', 'B', 'x']
 CREATORS = ['B', 'C', 'H', 'K', 'L', 'M', 'O', 'P', 'S', 'T', 'x', '~']
 COMPS = [0x2000, 0x2C00, 0xE500, 0xABCD, 0x0000, 0xFFFF, 0x00AB]
@@ -79,6 +79,7 @@ def _plan(tier, seed):
     for first in TEXT_SYMS:
         ch.append({'k': 'text', 'first': first, 'maxlen': n})
     ch.append({'k': 'text_long'})
+    ch.append({'k': 'plugin_json'})
     ch += [{'k': 'builtin_bytes', 'part': i, 'parts': 8} for i in range(8)]
     return ch
 
@@ -135,8 +136,8 @@ def has_decoder(sec, creator, plugins, beh):
     if beh is not None:
         if beh in ('obj', 'list', 'str', 'num'):
             return 'decoded'
-        if beh == 'badjson':
-            return None
+        if beh in ('badjson', 'nan', 'overflow', 'deep', 'hugeint'):
+            return None         # what the section shows is not constrained; the PEL must still decode to (strict) JSON
         if beh in ('none', 'raise', 'importerror', 'keyerror', 'import-raises', 'import-importerror', 'import-missing-dependency'):
             return 'raw+err'    # the module is there and failed (while being loaded or when called)
         return 'raw'      # null, empty, absent
@@ -150,6 +151,8 @@ def has_decoder(sec, creator, plugins, beh):
 def classify(case, what):
     beh = case.get('beh')
     sec = case['sec']
+    if what == 'not-decoded':
+        return 'C04:not-decoded'
     if beh in ('null', 'empty'):
         return 'F12:parser-returning-null-or-empty-drops-payload'
     if sec.get('comp') == 0xE500 and case.get('creator', 'O') == 'O' and sec.get('sub') not in (1, 2, 3, 4, 5) \
@@ -315,6 +318,17 @@ def run_chunk(chunk):
                 _do(res, {'sec': _sec('UD', raw, comp=0x2000, sub=sub)}, every=997)
                 if len(raw) != 2:
                     _do(res, {'sec': _sec('ED', raw, comp=0x2000, sub=sub, ed_creator='O'), 'creator': 'H'}, every=997)
+    elif k == 'plugin_json':
+        # the shipped hardware-diagnostics plug-in hands JSON from the payload (callout FFDC, sub-type 3) back to the tool
+        texts = [b'{"Callout List": [{"Priority": 1e999}]}', b'{"Callout List": [NaN, Infinity, -Infinity]}', b'NaN', b'[1e999]',
+                 b'{"n": ' + b'7' * 5000 + b'}', b'{"Callout List": []}', b'{"a": 1}\0\0', b'not json at all']
+        for depth in (10, 500, 900, 990, 1000, 1010, 1100, 1400, 1600, 5000):
+            texts.append(b'[' * depth + b']' * depth)
+            texts.append(b'{"k":' * depth + b'1' + b'}' * depth + b'\0')
+        for raw in texts:
+            for plugins in (True, False):
+                _do(res, {'sec': _sec('UD', raw, comp=0xE500, sub=3), 'creator': 'O', 'plugins': plugins})
+                _do(res, {'sec': _sec('ED', raw, comp=0xE500, sub=3, ed_creator='O'), 'creator': 'B', 'plugins': plugins})
     elif k == 'text_long':
         for n in (1, 15, 16, 17, 80, 1000):
             for sep in ('\n', '\n\n', ' '):
